@@ -27,12 +27,18 @@ NoType == Struct(<<>>)
 
 Iface(doc, ms) == [name |-> <<"org", "example", "t-1">>, doc |-> doc, members |-> ms]
 
+\* an anonymous type among an error's parameters is finding F5; such a t gets a program of its own (T1 + the error), so that
+\* the program exercising t in the other three positions is expected to compile cleanly and nothing hides behind F5
 TypesCases ==
   {Iface("one", << Member("type", "T1", "none", Struct(<<Fld("x", Plain("int"))>>), NoType),
                    Member("method", "M1", "one", Struct(<<Fld("f", t)>>), Struct(<<Fld("g", t), Fld("h", Plain("bool"))>>)),
-                   Member("error", "E1", "none", Struct(<<Fld("e", t)>>), NoType),
+                   Member("error", "E1", "none", Struct(<<Fld("e", IF HasAnon(t) THEN Plain("int") ELSE t)>>), NoType),
                    Member("type", "T2", "multi", Struct(<<Fld("interface", t), Fld("y", Opt(Plain("string")))>>), NoType) >>)
      : t \in Pool(TypeDepth)}
+  \cup
+  {Iface("one", << Member("type", "T1", "none", Struct(<<Fld("x", Plain("int"))>>), NoType),
+                   Member("error", "E1", "none", Struct(<<Fld("e", t)>>), NoType) >>)
+     : t \in {u \in Pool(TypeDepth) : HasAnon(u)}}
 
 Templates(i) ==
   LET nm(p) == <<p, i>> IN   \* the harness joins prefix and index into a name
@@ -60,9 +66,11 @@ FieldPool == {"foo", "a_b", "x1", "Foo"}
                \cup {"fn", "struct", "match", "self", "Self", "super", "crate", "async", "dyn", "loop", "enum", "impl", "trait", "mod", "use",
                      "pub", "ref", "mut", "move", "static", "const", "unsafe", "where", "while", "for", "if", "else", "in", "let", "return",
                      "break", "continue", "true", "false", "as", "box", "try", "yield", "abstract", "await", "call", "writer", "request"}
-TypeNamePool == {"Foo", "Self", "Call", "Error", "ErrorKind", "Result", "Option", "String", "Vec", "Box", "VarlinkClient", "VarlinkInterface", "Type"}
-MethodNamePool == {"Foo", "Call", "CallUpgraded", "Type", "GetInfo", "New", "Self", "Reply"}
-ErrorNamePool == {"Foo", "Error", "VarlinkError", "Io", "Self", "Result"}
+TypeNamePool == {"Foo", "Self", "Call", "Error", "ErrorKind", "Result", "Option", "String", "Vec", "Box", "VarlinkClient", "VarlinkInterface", "Type",
+                 "X", "ID", "TypeV2", "HTTPHeader"}
+MethodNamePool == {"Foo", "Call", "CallUpgraded", "Type", "GetInfo", "New", "Self", "Reply",
+                   "X", "IO", "GetID", "HTTPGet", "GetHTTPStatus", "Get2", "A1B", "Ab1cD"}   \* capitalisation / digit patterns (snake-casing)
+ErrorNamePool == {"Foo", "Error", "VarlinkError", "Io", "Self", "Result", "E", "BadIO", "IOFailure", "NotFound404", "V2Error"}
 
 T1def == Member("type", "T1", "none", Struct(<<Fld("x", Plain("int"))>>), NoType)
 M1def == Member("method", "M1", "none", Struct(<<>>), Struct(<<>>))
